@@ -21,9 +21,12 @@ CONSTANTS MaxLen,       \* maximal number of nodes of a generated expression
           LeafNames,    \* subset of DOMAIN LeafVal used by this configuration
           OpNames       \* subset of AllOps
 
-VARIABLES stack, prog
+VARIABLES stack, prog,
+          lfs,     \* parallel to stack: TRUE for leaves
+          cz       \* TRUE once a COMPUTED (non-leaf) zero / infinite / NaN value was used as an operand: ordinary
+                   \* evaluated SymPy construction restructures such expressions (flattening, 0 * x -> 0)
 
-vars == <<stack, prog>>
+vars == <<stack, prog, lfs, cz>>
 
 (* The leaf alphabet.  Names are shared with the harness (harness/c05.py),   *)
 (* which maps every name to a real SymPy / symplyphysics object.             *)
@@ -72,16 +75,19 @@ Arity(o) == CASE o \in {"mul2", "add2", "pow", "min2", "max2", "atan2"} -> 2
 Top(k) == stack[Len(stack) - k]                 \* Top(0) is the top of the stack
 Pop(n) == SubSeq(stack, 1, Len(stack) - n)
 
-Init == stack = <<>> /\ prog = <<>>
+Init == stack = <<>> /\ prog = <<>> /\ lfs = <<>> /\ cz = FALSE
 
 Push(l) == /\ Len(prog) + 1 + Len(stack) <= MaxLen        \* room to combine it afterwards
            /\ stack' = Append(stack, LeafVal[l])
            /\ prog' = Append(prog, l)
+           /\ lfs' = Append(lfs, TRUE) /\ UNCHANGED cz
 
 Apply(o) ==
   /\ Len(stack) >= Arity(o)
   /\ Len(prog) + 1 + (Len(stack) - Arity(o)) <= MaxLen
   /\ prog' = Append(prog, o)
+  /\ lfs' = Append(SubSeq(lfs, 1, Len(lfs) - Arity(o)), FALSE)
+  /\ cz' = (cz \/ \E k \in 0..(Arity(o) - 1) : ~lfs[Len(lfs) - k] /\ IsAny(Top(k)))
   /\ CASE o = "mul2" -> /\ Mul2Defined(Top(1), Top(0))
                         /\ stack' = Append(Pop(2), Mul2(Top(1), Top(0)))
        [] o = "mul3" -> /\ Mul2Defined(Top(2), Top(1)) /\ Mul2Defined(Mul2(Top(2), Top(1)), Top(0))
@@ -146,5 +152,5 @@ AnyHasNoDimension == \A i \in DOMAIN stack : IsAny(stack[i]) => stack[i].d = D1
 (* Emission of complete behaviours for the replay harness (spec -> code).    *)
 DimSeq(d) == <<d["L"], d["M"], d["T"], d["I"], d["K"], d["N"], d["J"], d["A"]>>
 Done == Len(stack) = 1 /\ Len(prog) >= 1
-Emit == Done => PrintT(ToJson([p |-> prog, c |-> stack[1].c, v |-> stack[1].v, d |-> DimSeq(stack[1].d)]))
+Emit == Done => PrintT(ToJson([p |-> prog, c |-> stack[1].c, v |-> stack[1].v, d |-> DimSeq(stack[1].d), z |-> cz]))
 =============================================================================
